@@ -67,3 +67,11 @@ PROPS["C17"] = dict(
     level_text="Theorems over an exact-integer model of IEEE-754 binary64 (Prim/F64: mul/div/round/format mirrored from Go and cross-checked on 77k vectors); every run compares bit patterns and strings with the real code on tie/binade/neighbour-directed floats and evaluates the nearest/odd/monotone/round-trip/exact-text predicates exactly (rational arithmetic) on the implementation's answers.",
     level_note="Trusted: Lean kernel + standard axioms; amd64 float semantics without FMA; math.Round/Pow10 and strconv.FormatFloat are external and mirrored in lean/Bch/Prim/F64.lean; float->int64 conversion out of range is outside the property.",
     assumptions=COMMON_ASSUME)
+PROPS["C18"] = dict(
+    level_text="Order-theory theorems (lessIn/lessOut are the BIP69 strict weak orders; Sort is a sorted permutation for any sort meeting sort.Sort's contract; IsSorted iff; idempotence) over the txsort model; every run compares all permutations of small tie-rich key sets and random transactions with the real code and re-checks permutation/order/non-destructiveness with independent spec-side keys.",
+    level_note="Trusted: Lean kernel + standard axioms; sort.Sort's contract (permutation, sorted for a strict weak order; stable insertion sort for n<=12) and MsgTx.Copy being a deep copy are external assumptions validated by the aliasing probe; Go runtime.",
+    assumptions=COMMON_ASSUME)
+PROPS["C19"] = dict(
+    level_text="Theorems over the coin-set/selector model (totals = sums over contents for every push/pop/shift history; prefix characterisation of the three simple selectors; the four clauses for min-priority); every run evaluates the property clauses on the real selectors' answers (thorough: exhaustive over <=4 coins x all parameters, 5.6e5 cases).",
+    level_note="Trusted: Lean kernel + standard axioms; sort.Sort as stable insertion sort for <=12 elements (the property's scope); container/list as a list; Go runtime; no int64 overflow at these sizes.",
+    assumptions=COMMON_ASSUME)
